@@ -53,8 +53,10 @@ ASSUMPTIONS = [
     "otherwise the two forms differ by boundary terms; multi-band k.p models are not covered",
     "use_factor: the non-default value False is run for every pair, but only on the cheapest model of each pair class "
     "(quick: zoo2d_2 at 2400 K for all six pairs + GME_orb on zoo3d_2; thorough adds zoo2d_3, KaneMele_odd_Z, all pairs "
-    "on zoo3d_2, Chiral GME_orb/BerryDipole and NLDrude_Fermider2 on zoo2d_2), not on the full model x temperature list: "
-    "the prefactor handling does not depend on the model. Other constructor options of the calculators (constant_factor "
+    "on zoo3d_2 and Chiral GME_orb/BerryDipole), not on the full model x temperature list: "
+    "the prefactor handling does not depend on the model. The f'' form NLDrude_Fermider2 is excluded from use_factor=False: "
+    "its default constant_factor factor_nldrude/2 contains the 1/2 of the identity, and use_factor=False keeps only the sign "
+    "of constant_factor, so the raw f'' integral is by construction twice the raw sea integral (observed, not judged). Other constructor options of the calculators (constant_factor "
     "given by the user, hole_like, tetra, k_resolved, select_bands) are not varied",
     "Fermi-level step kT/10 (kT/5 leaves a 1-2 % binning error in the third-order tensors), smoother cut-off maxdE=8 kT, window padded by 8.5 kT on both sides",
 ]
@@ -170,9 +172,13 @@ def plan(tier):
     #      relative disagreement is the same number and needs no calibration of its own.  Cheapest model per pair:
     #      zoo2d_2 at 2400 K (2.5-11 CPU-s per case, 32 CPU-s together); the composite pair GME_orb (the only one that
     #      forwards its options to an inner BerryDipole calculator) also in 3D, where all nine components are present
-    for p in ALLP:
-        if p == "NLDrude2" and quick:
-            continue
+    #      NLDrude2 is not part of this axis: NLDrude_Fermider2 carries the 1/2 of the identity
+    #      int vvv f'' = 2 int d3E f  inside its default constant_factor (factor_nldrude / 2), which use_factor=False
+    #      reduces to its sign by definition -> the f'' form is then exactly twice the sea form (observed: sea = 0.4997 * f''
+    #      form on zoo2d_2, (36,54), 2400 K).  The same happens with use_factor=True when the user gives one constant_factor to
+    #      both, so the 1/2 is the prefactor's business, not a promise about the raw integrals; demanding agreement
+    #      would be more than the statement says.
+    for p in EASY + ("NLDrude",):
         add("zoo2d_2", p, 2400, GRIDS[(2, 2400)], use_factor=False)
     add("zoo3d_2", "GME_orb", 4640, GRIDS[(3, 4640)], use_factor=False)
     if not quick:
